@@ -219,3 +219,22 @@ Proof.
   - apply andb_prop in P. destruct P as [P _]. destruct (snd (fst (a_batch A s ops))); try discriminate. reflexivity.
   - destruct (snd (fst (a_batch A s ops))); try discriminate; try reflexivity.
 Qed.
+
+(* ---------- the decorator over a failing engine ---------- *)
+
+Lemma fault_model_passes kind c : (kind < 4)%N -> fault_model kind c = (c, true).
+Proof.
+  intros H.
+  assert (kind = 0 \/ kind = 1 \/ kind = 2 \/ kind = 3)%N as [-> | [-> | [-> | ->]]] by lia;
+  destruct c; vm_compute; reflexivity.
+Qed.
+
+(* for the kinds the adapter signature can express, the KWrapFault check is equality with the decorator model's answer *)
+Lemma wrapfault_check_is_model kind injected observed intact : (kind < 4)%N ->
+  c11_check (KWrapFault kind injected observed intact) = true <-> (observed, intact) = fault_model kind injected.
+Proof.
+  intros H. rewrite (fault_model_passes kind injected H). cbn [c11_check]. split.
+  - intros E. apply andb_prop in E. destruct E as [E1 E2]. subst intact.
+    destruct observed, injected; try discriminate; reflexivity.
+  - intros E. injection E as -> ->. rewrite rclass_eqb_refl. reflexivity.
+Qed.
